@@ -103,11 +103,13 @@ func genTarget(r *RNG) *iosDev {
 		}
 		b.Intfs = append(b.Intfs, in)
 	}
+	rmode := r.Intn(3)
 	if r.Chance(60) {
 		for i, k := 0, 1+r.Intn(3); i < k; i++ {
 			dst := Pick(r, []string{"0.0.0.0 0.0.0.0", "10.8.0.0 255.255.0.0", "10.9.0.0 255.255.0.0", "10.9.1.0 255.255.255.0"})
 			rt := dst + " " + Pick(r, []string{"10.1.1.254", "10.1.1.253", "10.2.2.254"})
-			if useVRF && r.Chance(30) {
+			// placement of the target's routes: mixed, all in VRF V1 (the global table then has none) or all global
+			if useVRF && (rmode == 1 || rmode == 0 && r.Chance(30)) {
 				rt = "vrf V1 " + rt
 			}
 			if !contains(b.Routes, rt) {
@@ -249,6 +251,30 @@ func genDevice(r *RNG, b *iosDev) (*iosDev, []string) {
 			} else if len(b.Routes) > 0 {
 				a.Routes = append(a.Routes, "10.7.0.0 255.255.0.0 10.1.1.254")
 				say("route-extra")
+			}
+		}
+	}
+	// hand-made routes in a routing table that Netspoc knows (by an interface) but specifies no routes for,
+	// while it does specify routes for another table: they must stay
+	if len(b.Routes) > 0 && r.Chance(50) {
+		has := map[string]bool{}
+		for _, rt := range b.Routes {
+			has[routeVRF(rt)] = true
+		}
+		tables := map[string]bool{}
+		for _, i := range b.Intfs {
+			tables[i.VRF] = true
+		}
+		for _, v := range []string{"", "V1"} {
+			if tables[v] && !has[v] {
+				pre := ""
+				if v != "" {
+					pre = "vrf " + v + " "
+				}
+				for _, rt := range []string{"0.0.0.0 0.0.0.0 10.1.1.250", "10.20.0.0 255.255.0.0 10.1.1.251"}[:1+r.Intn(2)] {
+					a.Routes = append(a.Routes, pre+rt)
+				}
+				say("manual-routes-in-known-table-without-target-routes")
 			}
 		}
 	}
